@@ -155,6 +155,7 @@ def shard_a(member, acc):
     mid = {"name": name, "schema": xml}
     n = 0
     cap = 8 if tier == "quick" else 80
+    covered_paths = set()
     for events, d in C.nodes(S, root, cdepth, lean):
         if d.verdict != "A" or len(events) < 2:
             continue
@@ -163,6 +164,14 @@ def shard_a(member, acc):
             continue
         n += 1
         if n > cap:
+            # beyond the cap a seed is used for the override part (b) only, and only if it holds a section
+            # at a type path no earlier seed had (so that every key of every reachable section type, at
+            # every depth, receives its unconvertible override values)
+            if not (type_paths(events) - covered_paths):
+                continue
+            overrides_of_seed(S, sch, mid, events, text, acc, tier)
+            covered_paths |= type_paths(events)
+            acc.extra["override_only_seeds"] += 1
             continue
         base = classify(H.load(sch, text))
         acc.states += 1
@@ -183,40 +192,61 @@ def shard_a(member, acc):
                     check_text(sch, t2, acc, {"member": mid, "seed": text, "mutation": "pair:" + lab}, base)
                     acc.transitions += 1
         # (b) override specifiers of this seed and their single mutations
-        if any(e[0] in ("o", "e") for e in events) and n <= (4 if tier == "quick" else 40):
-            specs = [s for s in c14.spec_alphabet(S, events)]
-            tried = set()
-            good = [s for s in specs if "/" in s][:6]
-            for a, b in itertools.product(good, repeat=2):
-                r = H.load(sch, text, overrides=[a, b])
-                acc.ev()
-                acc.transitions += 1
-                acc.cls("override-" + classify(r).split(":")[0])
-                if r[0] == "internal":
-                    dd = core.exc_desc(r[1])
-                    acc.violation("internal-error-escapes", {"member": mid, "text": text, "overrides": [a, b]},
-                                  dd, "ZConfig.ConfigurationError family",
-                                  tags={"kind": "internal-error", "exc": dd["class"], "where": dd["where"],
-                                        "input": "override"})
-            for s in specs:
-                for cand in [s] + [m for _, m in spec_mutations(s)]:
-                    if cand in tried:
-                        continue
-                    tried.add(cand)
-                    r = H.load(sch, text, overrides=[cand])
-                    acc.ev()
-                    acc.transitions += 1
-                    cl = classify(r)
-                    acc.cls("override-" + cl.split(":")[0])
-                    if cand != s:
-                        acc.nt()
-                    if r[0] == "internal":
-                        dd = core.exc_desc(r[1])
-                        acc.violation("internal-error-escapes", {"member": mid, "text": text, "overrides": [cand]},
-                                      dd, "ZConfig.ConfigurationError family",
-                                      tags={"kind": "internal-error", "exc": dd["class"], "where": dd["where"],
-                                            "input": "override"})
+        tpaths = type_paths(events)
+        fresh_path = bool(tpaths - covered_paths)
+        if tpaths and (fresh_path or n <= (4 if tier == "quick" else 40)):
+            covered_paths |= tpaths
+            overrides_of_seed(S, sch, mid, events, text, acc, tier)
     return acc
+
+
+def type_paths(events):
+    """Set of section-type paths (tuples of lower-cased type names) of the sections in an event list."""
+    out, st = set(), []
+    for e in events:
+        if e[0] in ("o", "e"):
+            p = tuple(st) + (e[1].lower(),)
+            out.add(p)
+            if e[0] == "o":
+                st.append(e[1].lower())
+        elif e[0] == "c" and st:
+            st.pop()
+    return out
+
+
+def overrides_of_seed(S, sch, mid, events, text, acc, tier):
+    specs = [s for s in c14.spec_alphabet(S, events)]
+    tried = set()
+    good = [s for s in specs if "/" in s][:6]
+    for a, b in itertools.product(good, repeat=2):
+        r = H.load(sch, text, overrides=[a, b])
+        acc.ev()
+        acc.transitions += 1
+        acc.cls("override-" + classify(r).split(":")[0])
+        if r[0] == "internal":
+            dd = core.exc_desc(r[1])
+            acc.violation("internal-error-escapes", {"member": mid, "text": text, "overrides": [a, b]},
+                          dd, "ZConfig.ConfigurationError family",
+                          tags={"kind": "internal-error", "exc": dd["class"], "where": dd["where"],
+                                "input": "override"})
+    for s in specs:
+        for cand in [s] + [m for _, m in spec_mutations(s)]:
+            if cand in tried:
+                continue
+            tried.add(cand)
+            r = H.load(sch, text, overrides=[cand])
+            acc.ev()
+            acc.transitions += 1
+            cl = classify(r)
+            acc.cls("override-" + cl.split(":")[0])
+            if cand != s:
+                acc.nt()
+            if r[0] == "internal":
+                dd = core.exc_desc(r[1])
+                acc.violation("internal-error-escapes", {"member": mid, "text": text, "overrides": [cand]},
+                              dd, "ZConfig.ConfigurationError family",
+                              tags={"kind": "internal-error", "exc": dd["class"], "where": dd["where"],
+                                    "input": "override"})
 
 
 def spec_mutations(s):
@@ -226,6 +256,107 @@ def spec_mutations(s):
     for i in range(len(s) + 1):
         for c in "=/$ <%1-.":
             yield "ins", s[:i] + c + s[i:]
+
+
+# ---------------------------------------------------------------------------
+# (b2) overrides against a purpose-built schema: an integer key, a boolean key and a wildcard integer key at
+# every depth 0..3, sections in both spellings, key types basic-key and identifier
+
+DEEP_SCHEMA = """<schema>
+  <sectiontype name="leaf">
+    <key name="num" datatype="integer"/>
+    <key name="flag" datatype="boolean"/>
+  </sectiontype>
+  <sectiontype name="inner">
+    <key name="num" datatype="integer"/>
+    <section type="leaf" name="*" attribute="leaf"/>
+    <multisection type="leaf" name="+" attribute="leaves"/>
+  </sectiontype>
+  <sectiontype name="outer" keytype="identifier">
+    <key name="num" datatype="integer"/>
+    <multikey name="+" attribute="extra" datatype="integer"/>
+    <section type="inner" name="*" attribute="inner"/>
+  </sectiontype>
+  <key name="num" datatype="integer"/>
+  <key name="s"/>
+  <section type="outer" name="*" attribute="outer"/>
+  <multisection type="outer" name="+" attribute="outers"/>
+</schema>
+"""
+
+
+def deep_texts():
+    """Texts over the deep schema: each nesting level in long / short spelling, key present / absent."""
+    out = []
+    for leaf in ("", "<leaf/>", "<leaf>\n</leaf>", "<leaf>\nnum 1\n</leaf>", "<leaf n1/>", "<leaf n1>\nflag on\n</leaf>"):
+        for inner in ("none", "short", "long", "long+num"):
+            if inner == "none" and leaf:
+                continue
+            if inner == "short" and leaf:
+                continue
+            ib = {"none": "", "short": "<inner/>", "long": "<inner>\n%s\n</inner>" % leaf,
+                  "long+num": "<inner>\nnum 2\n%s\n</inner>" % leaf}[inner]
+            for outer in ("short", "long", "long+num", "named"):
+                if outer == "short" and ib:
+                    continue
+                ob = {"short": "<outer/>", "long": "<outer>\n%s\n</outer>" % ib,
+                      "long+num": "<outer>\nnum 3\nzz 4\n%s\n</outer>" % ib,
+                      "named": "<outer nm>\n%s\n</outer>" % ib}[outer]
+                t = "num 5\n%s\n" % ob
+                out.append("\n".join(l for l in t.split("\n") if l) + "\n")
+    return sorted(set(out))
+
+
+def deep_specs():
+    paths = ["", "outer/", "OUTER/", "nm/", "outer/inner/", "outer/INNER/", "outer/inner/leaf/", "outer/inner/n1/",
+             "outer/inner/LEAF/", "nosuch/", "outer/nosuch/", "outer/inner/nosuch/", "inner/", "leaf/"]
+    keys = ["num", "NUM", "flag", "zz", "nosuch", "1x", "a-b", "s"]
+    vals = ["5", "abc", "", "1.5", "$x", "on", "5 6"]
+    return [p + k + "=" + v for p in paths for k in keys for v in vals]
+
+
+def shard_b2(arg, acc):
+    ti, tier = arg
+    sch = H.load_schema(DEEP_SCHEMA)
+    text = deep_texts()[ti]
+    base = H.load(sch, text)
+    if base[0] != "ok":
+        raise core.HarnessError("deep override text not accepted: %r: %s" % (text, base[1]))
+    specs = deep_specs()
+    mid = {"name": "deep-overrides", "schema": DEEP_SCHEMA}
+
+    def one(ovr, nontrivial):
+        acc.current = (text, ovr)
+        r = H.load(sch, text, overrides=ovr)
+        acc.ev()
+        acc.transitions += 1
+        if nontrivial:
+            acc.nt()
+        cl = classify(r)
+        acc.cls("deep-override-" + cl)
+        acc.sample(lambda: {"member": "deep-overrides", "text": text, "overrides": ovr, "outcome": cl})
+        if r[0] == "internal":
+            dd = core.exc_desc(r[1])
+            acc.violation("internal-error-escapes", {"member": mid, "text": text, "overrides": ovr},
+                          dd, "ZConfig.ConfigurationError family",
+                          tags={"kind": "internal-error", "exc": dd["class"], "where": dd["where"],
+                                "input": "override"})
+    acc.states += 1
+    tried = set()
+    for s in specs:
+        one([s], "/" in s)
+        if tier != "quick" or (s.endswith("=abc") and ti % 3 == 0):
+            for _, m in spec_mutations(s):
+                if m not in tried:
+                    tried.add(m)
+                    one([m], True)
+    # ordered pairs: a convertible / unconvertible value at one depth next to any specifier at another
+    firsts = [s for s in specs if s.endswith(("=abc", "=5")) and s.split("=")[0].split("/")[-1] in ("num", "zz")]
+    seconds = specs if tier != "quick" else [s for s in specs if s.endswith(("=abc", "=5", "="))]
+    for a in firsts:
+        for b in seconds:
+            one([a, b], True)
+    return acc
 
 
 # ---------------------------------------------------------------------------
@@ -422,7 +553,11 @@ def run(tier):
         rule="(a) every single mutation (delete / duplicate / transpose at every character, insertion of each of "
              "'<>/%%#()$= ' at every position, delete / duplicate / swap of every token and line) of every seed "
              "(accepted corpus texts <= 9 lines, capped per schema; a 40-line hand-written text)%s; (b) every valid "
-             "override specifier of seeds with sections and all its single mutations; (c) all 512 include graphs over "
+             "override specifier of seeds with sections and all its single mutations (seeds chosen so that every section-type path "
+             "of the corpus is addressed); (b2) a purpose-built schema with integer / boolean / wildcard-integer keys at every "
+             "depth 0..3 under basic-key and identifier key types, all texts spelling each level long / short with the key "
+             "present / absent, 14 paths x 8 keys x 7 values as single specifiers with all their single mutations, and ordered "
+             "pairs; (c) all 512 include graphs over "
              "3 in-memory resources x {top level, inside a section}; (d) validator.main in-process on singles, pairs "
              "and triples of files; (e) '%%include' (top level and inside a section) and '%%import' with every argument made of a "
              "URL prefix (12) + <= %d tokens from a 15-token URL alphabet ('[', ']', ':', '#', NUL, '..', 'package', an "
@@ -438,6 +573,7 @@ def run(tier):
     step = (nm + 15) // 16
     mem += [("long", lo, min(nm, lo + step), tier) for lo in range(0, nm, step)]
     core.pmap(shard_a, mem, run.acc, shard_budget=3000.0)
+    core.pmap(shard_b2, [(i, tier) for i in range(len(deep_texts()))], run.acc)
     core.pmap(shard_c, [(lo, lo + 32, inside) for lo in range(0, 512, 32) for inside in (False, True)], run.acc)
     maxlen = 2 if tier == "quick" else 3
     ncomb = sum(len(URL_TOKENS) ** n for n in range(maxlen + 1))
@@ -449,6 +585,8 @@ def run(tier):
     a.traces = a.transitions
     run.require(a.classes.get("rejected", 0) > 1000 and a.classes.get("accepted", 0) > 1000, "few mutated texts")
     run.require(a.classes.get("override-rejected", 0) > 100, "few override mutations")
+    run.require(a.classes.get("deep-override-rejected:DataConversionError", 0) > 1000
+                and a.classes.get("deep-override-accepted", 0) > 1000, "deep override sweep hardly converts anything")
     run.require(a.classes.get("validator-status-1", 0) > 10 and a.classes.get("validator-status-0", 0) > 5,
                 "validator hardly exercised")
     return run
